@@ -28,3 +28,16 @@ def gen_ops(rng, tier, ctx=None):
                     if rng.random() < 0.1: b = m * rng.randrange(1, 1 << 70)   # multiple of m: result 0
                     if rng.random() < 0.5: b = -b
                     yield "mpz_powm_ui_m 0 %s %x %s" % (hx(b), el, hx(m if rng.random() < 0.8 else -m))
+
+    # mpz_powm_m: even moduli of every shape (whole zero limbs, bit shifts, nodd < ncnt, nodd > ncnt), the CRT index flags
+    for n in (1, 2, 3, 5, 8) + ((20, 60) if thor else ()):
+        for ncnt in sorted(set([0, 1, n // 2, max(0, n - 1)])):
+            for cnt in (0, 1, 63):
+                nodd_bits = 64 * (n - ncnt) - cnt
+                if nodd_bits < 2: continue
+                odd = (1 << (nodd_bits - 1)) | rng.getrandbits(nodd_bits - 1) | 1
+                m = odd << (64 * ncnt + cnt)
+                if m.bit_length() > 64 * n or (ncnt == 0 and cnt == 0): continue
+                for e in (2, 3, rng.getrandbits(70) | 1, rng.getrandbits(9) * 2):
+                    b = rng.getrandbits(64 * rng.choice([1, n, n + 1])) | rng.choice([0, 1])
+                    yield "mpz_powm_m 0 %s %s %s" % (hx(b if rng.random() < 0.7 else -b), hx(e), hx(m))
